@@ -158,6 +158,11 @@ impl File {
         self.sync_all()
     }
 
+    pub fn set_modified(&self, time: SystemTime) -> io::Result<()> {
+        let ino = self.desc.lock().unwrap().ino;
+        mach::fs_set_mtime(ino, time.as_ns())
+    }
+
     pub fn set_len(&self, len: u64) -> io::Result<()> {
         let ino = self.desc.lock().unwrap().ino;
         mach::fs_set_len(ino, len)
@@ -420,4 +425,35 @@ pub fn remove_dir_all<P: AsRef<Path>>(_path: P) -> io::Result<()> {
 
 pub fn exists<P: AsRef<Path>>(path: P) -> bool {
     metadata(path).is_ok()
+}
+
+
+/// `Path::exists()` / `Path::try_exists()` ask the real file system and cannot
+/// be re-routed by path; harness copies of the code under test call these
+/// instead (build.rs renames the calls).
+pub trait SimPathExt {
+    fn sim_exists(&self) -> bool;
+    fn sim_try_exists(&self) -> io::Result<bool>;
+}
+
+impl SimPathExt for Path {
+    fn sim_exists(&self) -> bool {
+        mach::fs_path_meta(self).is_ok()
+    }
+    fn sim_try_exists(&self) -> io::Result<bool> {
+        match mach::fs_path_meta(self) {
+            Ok(_) => Ok(true),
+            Err(e) if e.raw_os_error() == Some(2) => Ok(false),
+            Err(e) => Err(e),
+        }
+    }
+}
+
+impl SimPathExt for PathBuf {
+    fn sim_exists(&self) -> bool {
+        self.as_path().sim_exists()
+    }
+    fn sim_try_exists(&self) -> io::Result<bool> {
+        self.as_path().sim_try_exists()
+    }
 }
